@@ -8,7 +8,7 @@ LEVEL = 'exploration'
 BUDGET = {'quick': 12800, 'thorough': 256000}
 RULE = ('cases = well-formed chart (DESIGN.md 2) with a table guard on every transition + history '
         'of 6-20 queue/advance/step ops, every step with a fresh guard valuation (p=0.2 all true, '
-        'p=0.1 all false); internal events sent by actions. Per step the fired multiset, the '
+        'p=0.1 all false); internal events sent by actions, some with a delay. Per step the fired multiset, the '
         'consumed event, the None result and what every evaluated guard saw are compared with the '
         'reference selection rule. Non-trivial = a step in which >=2 transitions are enabled and '
         'differ in source depth, priority or eventless/evented class; distinct = sha1(chart, '
@@ -24,10 +24,11 @@ def strategy(tier):
     def cases(draw):
         # dense competition: orthogonal roots, few event names, several transitions (with
         # different priorities) on one source
-        spec = draw(gen.charts(max_states=16 if big else 12, p_sends=0.2, p_eventless=0.2, p_aguard=0.15,
+        spec = draw(gen.charts(max_states=16 if big else 12, p_sends=0.2, send_delays=True,
+                               p_eventless=0.2, p_aguard=0.15,
                                dup_tr=0.3, p_orth_root=0.45, n_events=2, min_tr=6, max_tr=16))
         ops = draw(gen.histories(spec, 6, 20, n_events=2, advances=True, delays=True))
-        return {'spec': spec, 'ops': ops}
+        return {'spec': spec, 'ops': ops, 'faults': draw(gen.faults(ops))}
     return cases()
 
 
